@@ -107,7 +107,8 @@ CheckDgram(p) ==
 
 \* ---------------------------------------------------------------- C03: transport parameters
 CheckParams(p) ==
-    LET s == DecodeParams(p.in, p.role) IN
+    LET s1 == DecodeParamsS(p.in, p.role, TRUE)
+        s == IF s1.ok = p.ok /\ (s1.ok => s1.ps = p.ps) THEN s1 ELSE DecodeParamsS(p.in, p.role, FALSE) IN
     /\ Soft("Accept", p.ok = s.ok)
     /\ Soft("ErrClass", (~p.ok /\ ~s.ok) => p.class = s.class)
     /\ Soft("Params", (p.ok /\ s.ok) => p.ps = s.ps)
